@@ -1,7 +1,7 @@
 (* C20 -- each interaction/form is defined at most once; duplicates are rejected.
    model/Duplicates.v restates the strict INI parse on normalised keys, _check_for_duplicate_pairs,
    check_for_duplicate_table_forms and the registry's label checks. *)
-From V Require Import lib.Common model.Store model.Duplicates proof.C20.
+From V Require Import lib.Common model.Store model.Duplicates proof.C20 model.Ini proof.IniProofs proof.IniFile.
 
 (* a second definition of the same pair interaction, in either species order, is rejected ... *)
 Theorem c20_pairs_reject : forall ks1 ks2 ks3 a b c d,
@@ -36,3 +36,17 @@ Example c20_example :
   accept [7] [(SPair, [mkentry (KPair 0 1) 0 10; mkentry (KPair 1 0) 1 11])] = false /\   (* reversed pair *)
   accept [6] f = false.                                                        (* table form named like a built-in *)
 Proof. repeat split; vm_compute; reflexivity. Qed.
+
+(* --- the same at the level of characters (model/Ini.v): after any well-formed file, a second header with the name of an earlier
+       section (other than [Variables]), or a further option of the last section whose key is that of an earlier one after
+       optionxform -- that is, up to blanks and tabs anywhere in it (c09_key_blanks / xform_blanks) -- makes the parse fail *)
+Theorem c20_duplicate_section_text : forall f1 s f2 rest, secs_wf [] (f1 ++ s :: f2) -> zlist_eqb (fst s) variables = false ->
+  parse_ini (render_file (f1 ++ s :: f2) ++ (91%Z :: fst s ++ [93%Z]) :: rest) = None.
+Proof. exact duplicate_section. Qed.
+Theorem c20_duplicate_option_text : forall f s o' rest, secs_wf [] (f ++ [s]) -> wf_opt o' ->
+  existsb (fun k => zlist_eqb k (keyx o')) (map keyx (snd s)) = true ->
+  parse_ini (render_file (f ++ [s]) ++ render_opt o' ++ rest) = None.
+Proof. exact duplicate_option. Qed.
+Theorem c20_key_blanks : forall l1 l2, filter nb l1 = filter nb l2 -> xform l1 = xform l2.
+Proof. exact xform_blanks. Qed.
+Print Assumptions c20_duplicate_option_text.
